@@ -926,6 +926,12 @@ func engineLRUModel(ctx *Ctx) {
 			nkeys = 101 + hr.Intn(30)
 			nops = 400 + hr.Intn(501)
 		}
+		if ctx.G(i)%1500 == 77 && kind == "lru" {
+			// a cache that lives long: tens of thousands of operations, thousands of insertions of absent keys, on one instance
+			kind = "lru-long"
+			nops = 15000 + hr.Intn(60000)
+			regime = []int{0, 0, 3, 1}[hr.Intn(4)]
+		}
 		var ttl time.Duration
 		switch regime {
 		case 1:
@@ -992,7 +998,7 @@ func engineLRUModel(ctx *Ctx) {
 		}
 		if viol != nil {
 			ctx.R.Violate(vlib.Violation{Property: "C12", Clause: viol.clause, Path: viol.method, Detail: viol.detail,
-				Witness: map[string]interface{}{"case": cs, "failed_at_op": len(h.ops), "history": h.trace()}})
+				Witness: map[string]interface{}{"case": cs, "failed_at_op": len(h.ops), "history": c12Tail(h.trace(), 400)}})
 		}
 	}
 	ctx.R.Extra["states"] = len(states)
@@ -1105,4 +1111,12 @@ func c12Manager(ctx *Ctx) {
 		}
 		ctx.R.Path("manager-ttl", 1)
 	})
+}
+
+// c12Tail keeps the last n operations of a long history (the whole history is regenerated from the case's seed on replay).
+func c12Tail(tr []string, n int) []string {
+	if len(tr) <= n {
+		return tr
+	}
+	return append([]string{fmt.Sprintf("... %d earlier operations omitted (regenerated from hseed on replay) ...", len(tr)-n)}, tr[len(tr)-n:]...)
 }
